@@ -335,6 +335,27 @@ pub fn check_artifacts(sc: &E2Scenario, before: &Tree, after: &Tree, listed: &[S
             wanted.push((p.op_abs(*fi), n.clone()));
             rep.probe("imported_fragment_in_declaration");
         }
+        // an anonymous operation has no name token: its generated identifiers map to its keyword
+        if f.defs.iter().any(|d| !d.is_fragment() && d.name().is_none()) {
+            let def_file = p.op_abs(i);
+            if let Some(src_text) = str_tree(before, &def_file) {
+                let idx = tok_cache.entry(def_file.clone()).or_insert_with(|| TokIndex::new(&src_text));
+                let heads = indep::scan_headers(&idx.toks);
+                if let Some(h) = heads.iter().find(|h| h.name.is_none() && matches!(h.keyword.as_str(), "query" | "mutation" | "subscription")) {
+                    let hit = m.segs.iter().any(|s| {
+                        s.src.is_some_and(|(si, sl, sc)| si >= 0 && (si as usize) < m.sources.len() && m.sources[si as usize] == def_file && sl as usize == h.kw_line && sc as usize == h.kw_col)
+                    });
+                    if !hit {
+                        rep.violate(
+                            &["C06"],
+                            "C06.6-operation-definition-unmapped",
+                            format!("{decl}.map: no segment leads to the anonymous operation at {def_file}:{}:{}", h.kw_line, h.kw_col),
+                        );
+                    }
+                    rep.probe("anonymous_operation_mapped");
+                }
+            }
+        }
         for (def_file, name) in wanted {
             let Some(src_text) = str_tree(before, &def_file) else { continue };
             let idx = tok_cache.entry(def_file.clone()).or_insert_with(|| TokIndex::new(&src_text));
